@@ -24,7 +24,11 @@ import (
 type Case struct {
 	Sessions []SessionSpec `json:"sessions"`
 	Live     *Live         `json:"live,omitempty"`
-	Queries  []Query       `json:"queries"`
+	// LiveNext, if set, is what the live session's endpoints report in a
+	// second cycle (all paths below "second/"); the session is listed again
+	// after it.
+	LiveNext *Live   `json:"live_next,omitempty"`
+	Queries  []Query `json:"queries"`
 	// Restart reloads the manager from disk before the queries.
 	Restart bool `json:"restart,omitempty"`
 }
@@ -148,8 +152,17 @@ func judge(c *Case) (v Verdict) {
 	// Scripted endpoints for the live session.
 	var liveID atomic.Value
 	liveID.Store("")
+	var current atomic.Pointer[Live]
 	if c.Live != nil {
-		alphaSnapshot, betaSnapshot := c.Live.snapshots()
+		current.Store(c.Live)
+		type pair struct{ alpha, beta *core.Snapshot }
+		snaps := map[*Live]pair{}
+		for _, l := range []*Live{c.Live, c.LiveNext} {
+			if l != nil {
+				a, b := l.snapshots()
+				snaps[l] = pair{a, b}
+			}
+		}
 		hooks := &sess.Hooks{
 			SkipStaging: true,
 			Scan: func(session string, alpha bool, ancestor *core.Entry, full bool) (bool, *core.Snapshot, error, bool) {
@@ -157,9 +170,9 @@ func judge(c *Case) (v Verdict) {
 					return false, nil, nil, false
 				}
 				if alpha {
-					return true, alphaSnapshot, nil, false
+					return true, snaps[current.Load()].alpha, nil, false
 				}
-				return true, betaSnapshot, nil, false
+				return true, snaps[current.Load()].beta, nil, false
 			},
 			Transition: func(session string, alpha bool, transitions []*core.Change) (bool, []*core.Entry, []*core.Problem, bool, error) {
 				if session != liveID.Load().(string) {
@@ -171,9 +184,9 @@ func judge(c *Case) (v Verdict) {
 					results[i] = t.Old
 				}
 				if alpha {
-					return true, results, realProblems(c.Live.AlphaTransition), false, nil
+					return true, results, realProblems(current.Load().AlphaTransition), false, nil
 				}
-				return true, results, realProblems(c.Live.BetaTransition), false, nil
+				return true, results, realProblems(current.Load().BetaTransition), false, nil
 			},
 		}
 		sess.Install(nil, hooks)
@@ -233,6 +246,25 @@ func judge(c *Case) (v Verdict) {
 	} else if liveIndex >= 0 {
 		if msg := checkListing(c, env, ids[liveIndex], &v); msg != "" {
 			return fail("%s", msg)
+		}
+		if c.LiveNext != nil {
+			// A second cycle over different content, then a second listing.
+			current.Store(c.LiveNext)
+			if err := env.Flush(ids[liveIndex], 2*time.Minute); err != nil {
+				le := ""
+				if st := env.State(ids[liveIndex]); st != nil {
+					le = st.LastError + " / " + st.Status.String()
+				}
+				ev.Inconclusive("C40: the live session's second cycle did not complete: %v (%s)", err, le)
+				class("inconclusive")
+				return v
+			}
+			second := *c
+			second.Live = c.LiveNext
+			if msg := checkListing(&second, env, ids[liveIndex], &v); msg != "" {
+				return fail("after a second cycle with different content: %s", msg)
+			}
+			class("listing/second-cycle")
 		}
 	}
 
